@@ -106,7 +106,7 @@ pub open spec fn batch_ok(items: Seq<Value>) -> bool {
             assert(items_in_section@.subrange(0, i__1 + 1).drop_last() =~= items_in_section@.subrange(0, i__1 as int));
         }
         let ghost b0 = bytes@;
-//@at /bytes\.put_f32\(item\.value\)\?;/ after
+//@at /^    \}$/ nth=1 before
         proof {
             assert(bytes@ == put_bw_item(b0, *item)); [[L: loop/item_layout]]
         }
